@@ -146,7 +146,9 @@ impl Search {
     /// ```
     fn iter_deep(&mut self, evaluator: &impl Evaluator, max_depth: Option<Depth>) {
         let start = Instant::now();
-        for depth in 1..=max_depth.unwrap_or(Depth::MAX) {
+        // The depth limit counts iterations; it must not be compared with the ply counter of the
+        // tree walk, which also grows in quiescence and under check extensions
+        for depth in 1..=max_depth.or(self.limits.depth).unwrap_or(Depth::MAX) {
             self.alpha_beta_start(evaluator, depth, start);
 
             if !self.is_running() || self.limits_exceeded(start) {
@@ -563,12 +565,6 @@ impl Search {
         }
         if let Some(nodes) = self.limits.nodes {
             if self.info.nodes >= nodes {
-                self.running.store(false, Ordering::Relaxed);
-                return true;
-            }
-        }
-        if let Some(depth) = self.limits.depth {
-            if self.info.depth >= depth {
                 self.running.store(false, Ordering::Relaxed);
                 return true;
             }
